@@ -373,6 +373,11 @@ func Graph(r *mon.Rng, maxTypes int) *model.Schema {
 			if len(items) == 1 {
 				items = append(items, model.OrName("boolean"))
 			}
+			if r.Chance(1, 4) {
+				// a rule-set for a container kind that also admits null (the literal example
+				// belongs to another alternative; null reaches this one)
+				items = append(items, model.OrSet(model.RStr("type", mon.Pick(r, []string{"array", "object"})), model.RBool("nullable", true)))
+			}
 			if r.Bool() {
 				items[0], items[len(items)-1] = items[len(items)-1], items[0]
 			}
